@@ -8,7 +8,7 @@ CORRESPONDENCE = ("Model/Codec.lean (estep, encodeFrames, wire) vs ClientCodec::
 RULE = ("estep: all 3 codec states x 256 byte values (exhaustive); codec: every string over "
         "{CR,LF,'.','a',NUL,0xFF} up to length 5 (quick) / 7 (thorough), cut into random frames, plus "
         "structured random messages (dots at line starts, bare CR/LF, embedded CRLF.CRLF, all byte values) "
-        "up to 64 KiB / 1 MiB; wire: the same kinds of messages sent through the real sync and tokio "
+        "up to 64 KiB / 1 MiB, and messages with an end-of-data look-alike placed at every offset -4..+1 around 512 … 16384 (65536) octets; wire: the same kinds of messages sent through the real sync and tokio "
         "message() to a loopback sink. Non-trivial = the message has a '.' at a line start or a CR; "
         "distinct = distinct case lines.")
 TRUSTED_BASE = ["Lean 4 kernel", "axioms: propext, Quot.sound at most (see axioms per theorem)",
@@ -70,6 +70,17 @@ def gen(tier, rng):
     for m in (b"", b".", b"\r\n.\r\n", b".\r\n", b"\r", b"a\r"):
         for k in "sa":
             cases.append(f"wire\t{k}\t{hexs(m)}")
+    # an end-of-data look-alike straddling every position around the block sizes a client might write or buffer in:
+    # the codec state must survive however the message is cut up on its way to the socket
+    blocks = [512, 1024, 2048, 4096, 8192, 16384] + ([32768, 65536] if tier != "quick" else [])
+    for blk in blocks:
+        for off in range(-4, 2):
+            for pat in (b"\r\n.\r\nMAIL FROM:<x@y.z>\r\n", b"\r\n..\r\n", b"\r\r\n.\r\n"):
+                start = blk + off
+                m = (b"x" * 70 + b"\r\n") * (start // 72 + 1)
+                m = m[:start] + pat + b"tail\r\n"
+                for k in "sa":
+                    cases.append(f"wire\t{k}\t{hexs(m)}")
     return cases
 
 
